@@ -45,6 +45,7 @@ func main() {
 		ctx := core.NewCtx(id, *tier, chk.Level)
 		pool := par.NewPool(ctx.Procs, "child")
 		chk.Run(ctx, pool)
+		pool.Close()
 		os.Exit(ctx.Finish())
 	case "replay":
 		if len(os.Args) < 4 {
